@@ -591,7 +591,42 @@ def sx_set(*items):
     if _anysym(items): return SymSet(items)
     return set(items)
 
-SHIMS = dict(sx__setitem=sx_setitem, sx__call=sx_call, sx__in=sx_in, sx__getitem=sx_getitem, sx__fmt=sx_fmt, sx__fstr=sx_fstr,
+_MEMOS = []
+_PLAIN = (str, int, bool, float, bytes, type(None), type)
+
+
+def _plain(x, depth=0):
+    import enum
+    if type(x) in _PLAIN or isinstance(x, (enum.Enum, type)): return True
+    if type(x) in (tuple, frozenset) and depth < 3: return all(_plain(y, depth + 1) for y in x)
+    return False
+
+
+def sx_memo(fn):
+    import functools
+    cache = {}
+    _MEMOS.append(cache)
+
+    @functools.wraps(fn)
+    def w(*a, **k):
+        if not (all(_plain(x) for x in a) and all(_plain(v) for v in k.values())): return fn(*a, **k)
+        key = (a, tuple(sorted(k.items())))
+        try: hit = key in cache
+        except TypeError: return fn(*a, **k)
+        if hit: return cache[key]
+        r = fn(*a, **k); cache[key] = r
+        return r
+    w.__wrapped__ = fn
+    w.cache_clear = cache.clear
+    w.cache_info = lambda: None
+    return w
+
+
+def clear_memos():
+    for c in _MEMOS: c.clear()
+
+
+SHIMS = dict(sx__memo=sx_memo, sx__setitem=sx_setitem, sx__call=sx_call, sx__in=sx_in, sx__getitem=sx_getitem, sx__fmt=sx_fmt, sx__fstr=sx_fstr,
              sx__mod=sx_mod, sx__meth=sx_meth, sx__set=sx_set, sx__re=RE_SHIM)
 
 WRAP_CALLS = {'bytes', 'StringIO', 'isinstance', 'int', 'str', 'bool', 'hash', 'repr', 'type', 'set', 'frozenset', 'ord', 'chr'}
@@ -622,7 +657,10 @@ class Tr(ast.NodeTransformer):
         for d in node.decorator_list:
             t = d.func if isinstance(d, ast.Call) else d
             nm = t.attr if isinstance(t, ast.Attribute) else (t.id if isinstance(t, ast.Name) else '')
-            if nm in ('lru_cache', 'cache'): continue
+            if nm in ('lru_cache', 'cache'):
+                # functools.lru_cache / cache hash their arguments in C (a symbolic argument cannot go there) - replaced by a memo with the same meaning on
+                # plain concrete arguments (the same OBJECT comes back on a hit, as with the real cache) that calls through when an argument is symbolic
+                keep.append(ast.copy_location(ast.Name('sx__memo', ast.Load()), d)); continue
             keep.append(d)
         node.decorator_list = keep
     def visit_FunctionDef(self, node):
